@@ -42,7 +42,7 @@ ENTRIES = {
     "C17": dict(
         text="Theorems (all seed>=0, b>=0, t>=1, n>=0, 0<=chain_index<n_chains): the call trace is reset, set_rng(key (seed,[chain_index])), b "
              "steps, then n x (t steps, record); exactly b+n*t steps; records exactly after steps b+t..b+n*t; holder ends complete; the key is "
-             "a function of (seed, chain_index), injective in the index and independent of b, t, n; VI models asked once for n and handed the same key (seed,[chain_index]) as an MCMC model (repaired in /repo, fix PENDING: "
+             "a function of (seed, chain_index), injective in the index and independent of b, t, n; VI models asked once for n and handed the same key (seed,[chain_index]) as an MCMC model (repaired in /repo, fix: 67fc5db: "
              "they used to get default_rng(seed) for every chain; the old variant survives only in C17_vi_streams_distinct_refuted, the witness is corpus/C17). Tied to the code "
              "by comparing the full event trace of the real sample() on a counting stub, plus key and first draws of the handed Generator. In addition the WHOLE function batchie.sampling.sample is re-translated from /repo's source into Gallina on every run (harness/py2gal.py) and C17_model_is_source proves the model equal to the translation for all arguments.",
         note="Partial: non-overlap of PCG64 streams for distinct spawn keys is numpy's guarantee (first draws checked only). Negative "
